@@ -352,7 +352,9 @@ pub fn read_conference_create_response(cc_response: &mut dyn Read) -> RdpResult<
             break;
         }
 
-        let mut buffer = vec![0 as u8; (cast!(DataType::U16, header["length"])? - header.length() as u16) as usize];
+        // the length of a block counts its own header
+        let body_length = cast!(DataType::U16, header["length"])?.checked_sub(header.length() as u16).ok_or(Error::RdpError(RdpError::new(RdpErrorKind::InvalidSize, "GCC: server block shorter than its header")))?;
+        let mut buffer = vec![0 as u8; body_length as usize];
         sub.read_exact(&mut buffer)?;
 
         match MessageType::from(cast!(DataType::U16, header["type"])?) {
